@@ -101,3 +101,53 @@ Proof.
   rewrite <- (sumZ_scale RF). apply sumR_le. intros k Hk.
   pose proof (HC k ltac:(lia)). pose proof (Rabs_pos (r k)). rfu. nra.
 Qed.
+
+(** ** a non-uniform energy axis (the float axis of the implementation: p(j+1) - p(j) = delta only up to rounding)
+
+    The column sum of the exact 3-point table is 1 + e1 (1 - (p(k+1) - p(k-1)) / (2 delta)) with damping and 1
+    without, for ANY axis: the diffusion weights cancel identically, the damping weights up to the
+    non-uniformity of the axis. *)
+Definition axis_defect (e1 delta : R) (p : Z -> R) (v k : Z) : R :=
+  opt (K:=RF) (has_damp v) (e1 * (1 - (p (k + 1)%Z - p (k - 1)%Z) / (2 * delta))).
+
+Lemma cw3_general (e1 delta : R) (p : Z -> R) (v k : Z) :
+  delta <> 0 -> cw3 RF e1 delta p v (fun _ => 1) k = 1 + axis_defect e1 delta p v k.
+Proof.
+  intros Hd. unfold axis_defect, cw3, w3, row3. cbn [nth snd].
+  unfold opt, e1_2d, e1_d2. destruct (has_damp v), (has_diff v); rfu; field; exact Hd.
+Qed.
+
+Theorem fp3_rounding_axis (e1 delta : R) (p : Z -> R) (v n le m : Z) (wh r out : Z -> R) :
+  (2 <= n < 2 ^ 32)%Z -> supp (K:=RF) r 2 (n - 2) -> delta <> 0 ->
+  let H := H3 RF e1 delta p v n le m in
+  col_computed n 3 (fun k => fst (H k)) wh r out ->
+  Rabs (sumR 0 (Z.to_nat n) out - sumR 0 (Z.to_nat n) r) <=
+  sumR 0 (Z.to_nat n) (fun k => Rabs (r k) *
+     (Rabs (axis_defect e1 delta p v k) + colw RF 3 (cw_table 3 H wh) (fun _ => 1) n k))
+  + INR (Z.to_nat n) * A32 3.
+Proof.
+  intros Hn Hs Hd H Hc.
+  pose proof (col_rounding_transposed n 3 H wh r out ltac:(lia) ltac:(lia)
+                ltac:(intros y j Hy Hj; unfold H; apply (H3_index_range RF e1 delta p v n le m y j); lia) Hc) as B.
+  pose proof (fp3_weighted RF e1 delta p v n le m r (fun _ => 1) Hn Hs) as Wt. fold H in Wt.
+  assert (E : sumR 0 (Z.to_nat n) (fp_col_out (K:=RF) 3 H r) - sumR 0 (Z.to_nat n) r =
+              sumR 0 (Z.to_nat n) (fun k => r k * axis_defect e1 delta p v k)).
+  { assert (W2 : sumR 0 (Z.to_nat n) (fp_col_out (K:=RF) 3 H r) =
+                 sumR 0 (Z.to_nat n) (fun k => r k * cw3 RF e1 delta p v (fun _ => 1) k)).
+    { etransitivity; [|exact Wt]. apply (sumZ_ext RF). intros y Hy. exact (eq_sym (Rmult_1_l _)). }
+    rewrite W2, sumR_sub. apply (sumZ_ext RF). intros k Hk. rewrite cw3_general by exact Hd.
+      change (r k * (1 + axis_defect e1 delta p v k) - r k = r k * axis_defect e1 delta p v k). ring. }
+  replace (sumR 0 (Z.to_nat n) out - sumR 0 (Z.to_nat n) r)
+    with ((sumR 0 (Z.to_nat n) out - sumR 0 (Z.to_nat n) (fp_col_out (K:=RF) 3 H r)) +
+          (sumR 0 (Z.to_nat n) (fp_col_out (K:=RF) 3 H r) - sumR 0 (Z.to_nat n) r)) by ring.
+  eapply Rle_trans; [apply Rabs_triang|]. rewrite E.
+  assert (A : Rabs (sumR 0 (Z.to_nat n) (fun k => r k * axis_defect e1 delta p v k)) <=
+              sumR 0 (Z.to_nat n) (fun k => Rabs (r k) * Rabs (axis_defect e1 delta p v k))).
+  { eapply Rle_trans; [apply sumR_abs|]. apply sumR_le. intros k Hk. rewrite Rabs_mult. lra. }
+  assert (S : sumR 0 (Z.to_nat n) (fun k => Rabs (r k) *
+                 (Rabs (axis_defect e1 delta p v k) + colw RF 3 (cw_table 3 H wh) (fun _ => 1) n k)) =
+              sumR 0 (Z.to_nat n) (fun k => Rabs (r k) * Rabs (axis_defect e1 delta p v k)) +
+              sumR 0 (Z.to_nat n) (fun k => Rabs (r k) * colw RF 3 (cw_table 3 H wh) (fun _ => 1) n k)).
+  { rewrite <- sumR_plus. apply (sumZ_ext RF). intros k Hk. rfu. ring. }
+  rewrite S. change (Z.to_nat 3) with 3%nat in B. lra.
+Qed.
